@@ -36,7 +36,7 @@ def report_defs(rng, k, scen_ids=()):
             lines.append('  timeformat "%s"' % fmts["rep%d" % i])
         if rng.random() < 0.4:
             lines.append("  leaftasksonly true")
-        hides["rep%d" % i] = rng.choice(["", "@none", "@all", "red", "~red", "blue", "~blue", "~red"])      # '~flag': containers go, flagged leaves inside them stay
+        hides["rep%d" % i] = rng.choice(["", "@none", "@all", "red", "~red", "blue", "~blue", "~red", "~isleaf()", "~isleaf()"])      # (the grammar reads the query function only behind '~')      # '~flag': containers go, flagged leaves inside them stay
         if hides["rep%d" % i]:
             lines.append("  hidetask %s" % hides["rep%d" % i])      # '@none' hides nothing, a flag name the tasks that carry it
         lines.append("}")
